@@ -629,3 +629,202 @@ Proof.
       + eapply nodup_app_disjoint; [exact Hnd|exact Hin|exact H]. }
   destruct (g_unbind w); [|exact Hd]. destruct Hd as [Hn Hl2]. split; [exact Hn|exact Hl2].
 Qed.
+
+(* ------------------------------------------------------------------ every watcher of a delivered signal is invoked *)
+
+(* a signal callback that neither cancels nor registers signal watches (it may set errno,
+   raise signals, register deferred callbacks and IO watches) *)
+Definition sig_quiet (a : saction) : bool :=
+  match a with SSig _ _ _ => false | SCancel _ => false | _ => true end.
+
+Definition sig_event (s : sst) (w : sgw) : obs := OEv (mkE (g_id w) KSig EV_FIRE (siter s) 0 (g_sig w)).
+
+Section Delivery.
+Variable c : cfg.
+Variable env : Z -> list saction.
+
+Lemma quiet_action : forall s a, sig_quiet a = true ->
+  sgws (sdo_action c s a) = sgws s /\ cursor (sdo_action c s a) = cursor s /\
+  slog (sdo_action c s a) = slog s /\ siter (sdo_action c s a) = siter s.
+Proof.
+  intros s a H. destruct a as [ub cb|fd cond ub cb|sig ub cb|id|e|sig|]; try discriminate; cbn [sdo_action];
+    try (repeat split; reflexivity).
+  - unfold evloop_io. destruct (find_free (slots s) 0); repeat split; reflexivity.
+  - destruct (is_watched s sig); repeat split; reflexivity.
+Qed.
+
+Lemma quiet_actions : forall l s, forallb sig_quiet l = true ->
+  sgws (sdo_actions c s l) = sgws s /\ cursor (sdo_actions c s l) = cursor s /\
+  slog (sdo_actions c s l) = slog s /\ siter (sdo_actions c s l) = siter s.
+Proof.
+  induction l as [|a l IH]; intros s H; [repeat split; reflexivity|].
+  cbn [forallb] in H. apply andb_true_iff in H. destruct H as [Ha Hl].
+  unfold sdo_actions in *. cbn [fold_left].
+  destruct (quiet_action s a Ha) as [A1 [A2 [A3 A4]]].
+  destruct (IH (sdo_action c s a) Hl) as [B1 [B2 [B3 B4]]].
+  repeat split; congruence.
+Qed.
+
+Lemma find_sgw_mid : forall pre w post, ~ In (g_id w) (map g_id pre) -> find_sgw (g_id w) (pre ++ w :: post) = Some w.
+Proof.
+  induction pre as [|h t IH]; intros w post Hn; cbn [app find_sgw].
+  - rewrite Z.eqb_refl. reflexivity.
+  - destruct (g_id h =? g_id w) eqn:E.
+    + apply Z.eqb_eq in E. exfalso. apply Hn. left. exact E.
+    + apply IH. intros Hin. apply Hn. right. exact Hin.
+Qed.
+
+Lemma sgw_after_mid : forall pre w post, ~ In (g_id w) (map g_id pre) ->
+  sgw_after (g_id w) (pre ++ w :: post) = match post with [] => None | n :: _ => Some (g_id n) end.
+Proof.
+  induction pre as [|h t IH]; intros w post Hn; cbn [app sgw_after].
+  - rewrite Z.eqb_refl. reflexivity.
+  - destruct (g_id h =? g_id w) eqn:E.
+    + apply Z.eqb_eq in E. exfalso. apply Hn. left. exact E.
+    + apply IH. intros Hin. apply Hn. right. exact Hin.
+Qed.
+
+Lemma nodup_mid : forall (pre : list sgw) w post, NoDup (map g_id (pre ++ w :: post)) ->
+  ~ In (g_id w) (map g_id pre) /\ NoDup (map g_id ((pre ++ [w]) ++ post)).
+Proof.
+  intros pre w post H. split.
+  - rewrite map_app in H. cbn [map] in H. apply NoDup_remove_2 in H. intros Hin. apply H. apply in_or_app. left. exact Hin.
+  - rewrite <- app_assoc. exact H.
+Qed.
+
+(* the walk from the watch after [pre] to the end of the list invokes exactly the watchers of
+   [sig] among the remaining ones, in list order, and changes nothing else that matters *)
+Lemma sig_walk_all : forall post pre w fuel sig s,
+  sgws s = pre ++ w :: post -> NoDup (map g_id (sgws s)) ->
+  (forall v, In v (sgws s) -> forallb sig_quiet (env (g_cb v)) = true) ->
+  (length post + 1 < fuel)%nat ->
+  exists s', sig_walk c env fuel (Some (g_id w)) sig s = Some s' /\
+             slog s' = rev (map (sig_event s) (filter (fun v => g_sig v =? sig) (w :: post))) ++ slog s /\
+             sgws s' = sgws s /\ siter s' = siter s.
+Proof.
+  induction post as [|n post IH]; intros pre w fuel sig s Hl Hnd Hq Hf.
+  - destruct fuel as [|[|f]]; try (cbn in Hf; lia). cbn [sig_walk].
+    rewrite Hl in Hnd. destruct (nodup_mid pre w [] Hnd) as [Hn _].
+    rewrite Hl, (find_sgw_mid pre w [] Hn), (sgw_after_mid pre w [] Hn). rewrite <- Hl.
+    assert (Hqw : forallb sig_quiet (env (g_cb w)) = true) by (apply Hq; rewrite Hl; apply in_or_app; right; left; reflexivity).
+    cbn [filter]. destruct (g_sig w =? sig) eqn:E.
+    + destruct (quiet_actions (env (g_cb w)) (semit (up_cursor s None) (g_id w) KSig EV_FIRE sig) Hqw) as [A1 [A2 [A3 A4]]].
+      rewrite A2. cbn [cursor semit up_slog up_cursor]. eexists. split; [reflexivity|].
+      rewrite A3, A1, A4. apply Z.eqb_eq in E. subst sig. repeat split; reflexivity.
+    + cbn [cursor up_cursor]. eexists. split; [reflexivity|]. repeat split; reflexivity.
+  - destruct fuel as [|f]; [cbn in Hf; lia|]. cbn [sig_walk].
+    pose proof Hnd as Hnd0. rewrite Hl in Hnd. destruct (nodup_mid pre w (n :: post) Hnd) as [Hn Hnd2].
+    rewrite Hl, (find_sgw_mid pre w (n :: post) Hn), (sgw_after_mid pre w (n :: post) Hn). rewrite <- Hl.
+    assert (Hqw : forallb sig_quiet (env (g_cb w)) = true) by (apply Hq; rewrite Hl; apply in_or_app; right; left; reflexivity).
+    assert (Hl2 : pre ++ w :: n :: post = (pre ++ [w]) ++ n :: post) by (rewrite <- app_assoc; reflexivity).
+    cbn [filter]. destruct (g_sig w =? sig) eqn:E.
+    + destruct (quiet_actions (env (g_cb w)) (semit (up_cursor s (Some (g_id n))) (g_id w) KSig EV_FIRE sig) Hqw) as [A1 [A2 [A3 A4]]].
+      rewrite A2. cbn [cursor semit up_slog up_cursor].
+      set (s2 := sdo_actions c (semit (up_cursor s (Some (g_id n))) (g_id w) KSig EV_FIRE sig) (env (g_cb w))) in *.
+      assert (G2 : sgws s2 = sgws s) by exact A1.
+      destruct (IH (pre ++ [w]) n f sig s2) as [s' [W [Lg [Sg It]]]].
+      * rewrite G2, Hl. exact Hl2.
+      * rewrite G2. exact Hnd0.
+      * rewrite G2. exact Hq.
+      * cbn [length] in Hf. lia.
+      * exists s'. split; [exact W|]. split; [|split; [rewrite Sg; exact G2|rewrite It, A4; reflexivity]].
+        rewrite Lg, A3. cbn [slog semit up_slog up_cursor map rev].
+        apply Z.eqb_eq in E. subst sig.
+        assert (Ev : map (sig_event s2) (filter (fun v => g_sig v =? g_sig w) (n :: post)) =
+                     map (sig_event s) (filter (fun v => g_sig v =? g_sig w) (n :: post))).
+        { apply map_ext. intros v. unfold sig_event. rewrite A4. reflexivity. }
+        rewrite Ev. unfold sig_event at 3. rewrite <- app_assoc. reflexivity.
+    + cbn [cursor up_cursor].
+      destruct (IH (pre ++ [w]) n f sig (up_cursor s (Some (g_id n)))) as [s' [W [Lg [Sg It]]]].
+      * cbn [sgws up_cursor]. rewrite Hl. exact Hl2.
+      * exact Hnd0.
+      * exact Hq.
+      * cbn [length] in Hf. lia.
+      * exists s'. split; [exact W|]. split; [exact Lg|split; [exact Sg|exact It]].
+Qed.
+
+End Delivery.
+
+Section Delivery2.
+Variable c : cfg.
+Variable env : Z -> list saction.
+
+Lemma not_watched_filter : forall l sig, existsb (fun w => g_sig w =? sig) l = false ->
+  filter (fun v => g_sig v =? sig) l = [].
+Proof.
+  induction l as [|h t IH]; intros sig H; [reflexivity|]. cbn [existsb filter] in *.
+  apply orb_false_iff in H. destruct H as [H1 H2]. rewrite H1. apply IH. exact H2.
+Qed.
+
+Definition invoked (s : sst) (sigs : list Z) : list obs :=
+  flat_map (fun sig => map (sig_event s) (filter (fun v => g_sig v =? sig) (sgws s))) sigs.
+
+Lemma dispatch_sigs_all : forall sigs fuel s,
+  NoDup (map g_id (sgws s)) ->
+  (forall v, In v (sgws s) -> forallb sig_quiet (env (g_cb v)) = true) ->
+  (length (sgws s) + 1 < fuel)%nat ->
+  exists s', dispatch_sigs c env fuel sigs s = Some s' /\
+             slog s' = rev (invoked s sigs) ++ slog s /\ sgws s' = sgws s /\ siter s' = siter s.
+Proof.
+  induction sigs as [|sg r IH]; intros fuel s Hnd Hq Hf.
+  - exists s. repeat split; reflexivity.
+  - cbn [dispatch_sigs]. unfold is_watched. destruct (existsb (fun w => g_sig w =? sg) (sgws s)) eqn:Ew.
+    + destruct (sgws s) as [|h t] eqn:El; [discriminate|].
+      destruct (sig_walk_all c env t [] h fuel sg s) as [s1 [W [Lg [Sg It]]]].
+      * rewrite El. reflexivity.
+      * rewrite El. exact Hnd.
+      * rewrite El. exact Hq.
+      * cbn [length] in Hf. lia.
+      * rewrite W.
+        destruct (IH fuel s1) as [s' [D [Lg2 [Sg2 It2]]]].
+        -- rewrite Sg, El. exact Hnd.
+        -- rewrite Sg, El. exact Hq.
+        -- rewrite Sg, El. exact Hf.
+        -- exists s'. split; [exact D|]. split; [|split; [congruence|congruence]].
+           rewrite Lg2, Lg. unfold invoked. cbn [flat_map]. rewrite rev_app_distr, <- app_assoc.
+           rewrite Sg, El.
+           assert (Ev : forall sigs0, flat_map (fun sig => map (sig_event s1) (filter (fun v => g_sig v =? sig) (h :: t))) sigs0 =
+                                      flat_map (fun sig => map (sig_event s) (filter (fun v => g_sig v =? sig) (h :: t))) sigs0).
+           { intros sigs0. apply flat_map_ext. intros a. apply map_ext. intros v. unfold sig_event. rewrite It. reflexivity. }
+           rewrite Ev. reflexivity.
+    + destruct (IH fuel s Hnd Hq Hf) as [s' [D [Lg [Sg It]]]].
+      exists s'. split; [exact D|]. split; [|split; assumption].
+      rewrite Lg. unfold invoked. cbn [flat_map]. rewrite (not_watched_filter _ _ Ew). reflexivity.
+Qed.
+
+(* C18_all_watchers_invoked: when the loop dispatches, every callback watching a recorded signal
+   is invoked exactly once, signals in ascending order, watchers in registration (list) order --
+   for callbacks that do not themselves cancel or register signal watches *)
+Theorem dispatch_invokes_all : forall fuel s,
+  NoDup (map g_id (sgws s)) ->
+  (forall v, In v (sgws s) -> forallb sig_quiet (env (g_cb v)) = true) ->
+  (length (sgws s) + 1 < fuel)%nat ->
+  exists s', dispatch_signals c env fuel s = Some s' /\
+             slog s' = rev (invoked s (sort_z (pending s))) ++ slog s /\ pending s' = [] /\ sgws s' = sgws s.
+Proof.
+  intros fuel s Hnd Hq Hf. unfold dispatch_signals.
+  destruct (dispatch_sigs_all (sort_z (pending s)) fuel (up_pending s []) Hnd Hq Hf) as [s' [D [Lg [Sg It]]]].
+  exists s'. split; [exact D|]. split; [exact Lg|]. split; [|exact Sg].
+  apply pending_dispatch_sigs in D. exact D.
+Qed.
+
+End Delivery2.
+
+(* the state handed to ppoll by one pass of the loop *)
+Definition before_poll (sleep : bool) (s : sst) : sst :=
+  let s0 := up_siter s (siter s + 1) in
+  up_slog s0 (OPoll (if sleep then match dlaters s0 with [] => -1 | _ => 0 end else 0) :: slog s0).
+
+(* an iteration whose ppoll was interrupted reaches dispatch_signals, after the deferred
+   callbacks and whatever they did to errno, with everything the handler recorded *)
+Lemma stick_interrupted : forall env fuel sleep s s2,
+  ppoll (before_poll sleep s) = (-1, s2) ->
+  stick fixed_cfg env fuel sleep s = dispatch_signals fixed_cfg env fuel (invoke_laters fixed_cfg env s2) /\
+  pending (invoke_laters fixed_cfg env s2) = pending s2.
+Proof.
+  intros env fuel sleep s s2 H. split; [|apply pending_invoke_laters].
+  unfold stick. fold (before_poll sleep s). rewrite H.
+  destruct (ppoll_cases _ _ _ H) as [[Hr _]|[_ He]]; [lia|].
+  change (0 <? -1) with false. change (-1 <? 0) with true. cbn [andb errno_late fixed_cfg].
+  rewrite He. reflexivity.
+Qed.
